@@ -20,6 +20,8 @@ const WRAPPERS: [&str; 11] = ["direct", "if", "elseif", "while", "not", "alias-s
 struct Rig {
     ctx: Context,
     got: Rc<RefCell<Vec<Vec<String>>>>,
+    /// what the command `after` received (a probe placed behind the wrapping line)
+    after: Rc<RefCell<Vec<Vec<String>>>>,
 }
 
 impl Rig {
@@ -34,7 +36,28 @@ impl Rig {
                 CommandResult::Continue(Some(if first { "true" } else { "false" }.to_string()))
             }))
             .unwrap();
-        Rig { ctx, got }
+        let after: Rc<RefCell<Vec<Vec<String>>>> = Rc::new(RefCell::new(vec![]));
+        let a2 = after.clone();
+        ctx.commands
+            .set(fn_command("after", move |c| {
+                a2.borrow_mut().push(c.arguments.clone());
+                CommandResult::Continue(None)
+            }))
+            .unwrap();
+        Rig { ctx, got, after }
+    }
+
+    /// runs a script and returns what the probe command `after` received
+    fn run_after(&self, script: &str, v: &str) -> Result<Vec<Vec<String>>, String> {
+        self.got.borrow_mut().clear();
+        self.after.borrow_mut().clear();
+        let mut ctx = self.ctx.clone();
+        ctx.variables.insert("v".into(), v.to_string());
+        let (env, _o, _e, _h) = quiet_env();
+        match runner::run_script(script, ctx, Some(env)) {
+            Ok(_) => Ok(self.after.borrow().clone()),
+            Err(e) => Err(e.to_string()),
+        }
     }
 
     /// `place` 0: the wrapping line at the top level of the script; 1: inside the body of a user
@@ -256,12 +279,78 @@ fn scale(w: &mut Worker, rig: &Rig) {
     }
 }
 
+/// What a wrapped call leaves behind: after `if pred a b` (elseif / while / not) the variables a later
+/// line can see - the positional variables above all - are the ones a direct call `pred a b` leaves.
+/// Differential: the probe `after ${1} ${2} ${v} ${keep}` behind the wrapping line against the same
+/// probe behind a direct call.
+fn aftermath(w: &mut Worker, rig: &Rig) {
+    let values = ["x", "a b", "", "${w}", "#", "é"];
+    for v in values {
+        for scoped in [false, true] {
+            for place in 0..2usize {
+                let head = if scoped { "fn <scope> p" } else { "fn p" };
+                let defs = format!("{}\ncap ${{1}} ${{2}}\nreturn true\nend\nkeep = set kept\n", head);
+                let probe = "after ${1} ${2} ${v} ${keep}";
+                let wrap = |line: &str| -> String {
+                    let body = format!("{}\n{}", line, probe);
+                    if place == 0 {
+                        format!("{}{}", defs, body)
+                    } else {
+                        format!("{}fn outer\n{}\nend\nouter outer-one outer-two", defs, body)
+                    }
+                };
+                let direct = match guarded(|| rig.run_after(&wrap("r = p ${v} z"), v)) {
+                    Ok(Ok(d)) => d,
+                    other => {
+                        if w.take() {
+                            let cj = json!({"kind": "aftermath", "value": v, "scoped": scoped, "place": place, "wrapper": "direct"});
+                            w.begin(|| cj.clone());
+                            w.fail("aftermath:direct-call-failed", &format!("{:?}", other), cj);
+                        }
+                        continue;
+                    }
+                };
+                for (name, line) in [
+                    ("if", "if p ${v} z\nend"),
+                    ("elseif", "if false\nelseif p ${v} z\nend"),
+                    ("while", "n = set 0\nwhile p ${v} z\nn = calc ${n} + 1\nif greater_than ${n} 0\ngoto :out\nend\nend\n:out"),
+                    ("not", "r = not p ${v} z"),
+                ] {
+                    if !w.take() {
+                        continue;
+                    }
+                    let script = wrap(line);
+                    let cj = json!({"kind": "aftermath", "value": v, "scoped": scoped, "place": place, "wrapper": name, "script": script});
+                    w.begin(|| cj.clone());
+                    w.add_transitions(2);
+                    match guarded(|| rig.run_after(&script, v)) {
+                        Err(p) => w.fail("aftermath:panic", &p, cj),
+                        Ok(Err(e)) => w.fail(&format!("aftermath:run-failed:{}", name), &e, cj),
+                        Ok(Ok(got)) => {
+                            if got == direct {
+                                w.pass(true, hash64(&("aftermath", name, scoped, place)));
+                            } else {
+                                w.fail(
+                                    &format!("aftermath:{}:{}", name, if scoped { "scoped" } else { "plain" }),
+                                    &format!("after `{} p ${{v}} z` (value {:?}, {}) the probe received {:?}; after the direct call it receives {:?}", name, v, if place == 0 { "top level" } else { "inside a function" }, got, direct),
+                                    cj,
+                                );
+                            }
+                        }
+                    }
+                }
+            }
+        }
+    }
+}
+
 pub fn worker(w: &mut Worker) {
     let tier = w.tier;
     w.risky = true;
     w.set_case_limit_ms(5_000);
     let rig = Rig::new();
     scale(w, &rig);
+    aftermath(w, &rig);
     let vl = tier.pick(3usize, 4usize);
     let mut values: Vec<String> = Strings::new(&SIGMA[..], 0, vl).map(|v| v.concat()).collect();
     for s in SPECIAL {
@@ -314,6 +403,10 @@ pub fn worker(w: &mut Worker) {
 }
 
 pub fn replay(case: &Value) -> Result<String, String> {
+    if case["kind"].as_str() == Some("aftermath") {
+        let rig = Rig::new();
+        return Ok(format!("{:?}", rig.run_after(case["script"].as_str().unwrap_or(""), case["value"].as_str().unwrap_or(""))));
+    }
     if case["kind"].as_str() == Some("scale") {
         let rig = Rig::new();
         let got = rig.run_text(case["script"].as_str().unwrap_or(""), case["value"].as_str().unwrap_or(""));
@@ -340,7 +433,7 @@ pub fn crash_sig(case: &Value, kind: &str) -> String {
     format!("{}:{}:{}", kind, case["wrapper"].as_str().unwrap_or("?"), class_of(case["value"].as_str().unwrap_or("")))
 }
 
-pub const RULE: &str = "values: every string up to the length bound over {a SP \" # \\\\ $ { } % LF CR = TAB e-acute} plus 8 special values (${v}, %{v}, \\\\${v}, ${w}, 'a b', '\"a b\"', 'a  b', x=y), held in a variable and written as ${v} in first or second argument position of a capture command invoked directly, as the condition of if / elseif / while, under not, through an alias that stores the value, through an alias that is passed the value, through a user function used as predicate, through aliases whose target is `not <predicate>` (value passed or stored), and through an alias that stores the value and whose name a second alias definition then tries to take (refused); every wrapping line both at the top level of the script and inside the body of a user function that was itself called with two arguments. Scale cases: 302 (thorough 3002) arguments, the first and last a value of 5000 (thorough 100000) characters of such text, through the direct call and seven wrappers. Oracle: the arguments received through the wrapper equal those received by the direct call. A failing case is classified by whether the received arguments equal what re-serialising the values into a line and parsing/binding it again yields (the recorded defect, one signature per input class) or not (a new violation). Non-trivial: the value contains a character other than plain letters";
+pub const RULE: &str = "values: every string up to the length bound over {a SP \" # \\\\ $ { } % LF CR = TAB e-acute} plus 8 special values (${v}, %{v}, \\\\${v}, ${w}, 'a b', '\"a b\"', 'a  b', x=y), held in a variable and written as ${v} in first or second argument position of a capture command invoked directly, as the condition of if / elseif / while, under not, through an alias that stores the value, through an alias that is passed the value, through a user function used as predicate, through aliases whose target is `not <predicate>` (value passed or stored), and through an alias that stores the value and whose name a second alias definition then tries to take (refused); every wrapping line both at the top level of the script and inside the body of a user function that was itself called with two arguments. Aftermath family: behind `if / elseif / while / not <user function> ${v} z` (plain and <scope> function, at top level and inside a called function, 6 values) a probe receives ${1} ${2} ${v} and a caller variable exactly as it does behind the direct call. Scale cases: 302 (thorough 3002) arguments, the first and last a value of 5000 (thorough 100000) characters of such text, through the direct call and seven wrappers. Oracle: the arguments received through the wrapper equal those received by the direct call. A failing case is classified by whether the received arguments equal what re-serialising the values into a line and parsing/binding it again yields (the recorded defect, one signature per input class) or not (a new violation). Non-trivial: the value contains a character other than plain letters";
 pub const ASSUMPTIONS: &[&str] = &["the capture command returns true on its first call and false afterwards (so a while loop ends)", "classification of known findings uses the real parser and binder on a transcription of the line building in utils/eval.rs"];
 pub const EXHAUSTIVE: bool = true;
 pub const WALL_CAP_S: (u64, u64) = (55, 1500);
